@@ -51,7 +51,7 @@ def run(run, args):
     kinds = Counter((r["op"], r.get("kind"), r.get("form")) for r in recs)
     pairings = Counter((r.get("ta"), r.get("tb")) for r in recs if r["op"] == "arith")
     run.cov.update({"evaluations": len(recs), "distinct_nontrivial": len(set(res[2])),
-                    "rule": "operand pair lists of 0..6 (key, count) pairs over a pool of 9 keys (duplicates and zero counts included, counts up to "
+                    "rule": "operand pair lists of 0..6 (key, count) pairs over a pool of 14 keys (incl. Ar/Ca, H/H+, Tc/Pm which collide on mass number) (duplicates and zero counts included, counts up to "
                             "2.5e5 in magnitude, scalars up to 1e3) x all 16 pairings of {Vec, Map, Enum(Vec), Enum(Map)} with a random operator form "
                             "(by-reference, by-value, in-place, in-place through &mut) of +, -, *, unary minus; plus every pair constructor of the three "
                             "types; observation = get on every pool key of result and operands; non-trivial = both operands non-empty / >= 2 pairs",
